@@ -85,7 +85,7 @@ func loadConfig(repo, name, tags string, extra ...string) (*Config, error) {
 	}
 	c.All = pkgs
 	c.Fset = pkgs[0].Fset
-	prog, spkgs := ssautil.AllPackages(pkgs, ssa.InstantiateGenerics)
+	prog, spkgs := ssautil.AllPackages(pkgs, ssa.InstantiateGenerics|ssa.GlobalDebug)
 	prog.Build()
 	c.Prog = prog
 	for i, sp := range spkgs {
